@@ -13,6 +13,8 @@ def run(res, replay=None):
     # structural ties of _accumulate (loops) and accumulate / moment (moments): the source-level conservation theorems are about the generated functions
     import translate_step; (res.proof is not None) and translate_step.run(res.proof, pid=res.pid, tie='loops')
     import translate_step; (res.proof is not None) and translate_step.run(res.proof, pid=res.pid, tie='moments')
+    # pinned reading of the two-dimensional spectrum class (SFS2.fold / symmetrize / arithmetic of phasegen/spectrum.py, what cov and corr are wrapped in): re-check the CURRENT source against it and proofs/GenSpectrumEquiv.v
+    import translate_step; (res.proof is not None) and translate_step.run(res.proof, pid=res.pid, tie='spectrum')
     rng = random.Random(res.seed)
     res.rule = ('identities stream: random single-locus configurations (n<=5, 1-2 demes, three models, 1-3 epochs, with/'
                 'without end time): sum of SFS = branch length, size-weighted sum = n * height, folded = fold(unfolded), '
